@@ -244,7 +244,9 @@ func (a *adapter) Data(data []byte, streamEnded bool) error {
 		default:
 			panic(fmt.Sprintf("unexpected state: %v", a.state))
 		}
-		if a.buffer.Len() == 0 {
+		// An empty buffer only ends the processing between messages: a zero-length message whose prefix
+		// has just been consumed is still due.
+		if a.buffer.Len() == 0 && a.state == readingMetadata {
 			return nil
 		}
 	}
